@@ -182,6 +182,9 @@ pub fn run_scripts(prop: &str, checks: u32, name: &str, scripts: &[Script]) -> F
                                     ctx.stats.add("e10_third_occurrence_withheld_at_the_end_of_the_second_lap", 1);
                                 } else {
                                     ctx.stats.add("e10_scripts_abandoned", 1);
+                                    if std::env::var("MC_DEBUG_SCRIPTS").is_ok() {
+                                        eprintln!("abandoned script {} at turn {} step {} wanted {}", sc.config, ti, si, want);
+                                    }
                                 }
                                 break 'game;
                             }
@@ -206,3 +209,317 @@ pub fn run_scripts(prop: &str, checks: u32, name: &str, scripts: &[Script]) -> F
 }
 
 pub const DISTANCE_NAME: &str = "E10 distance sweep: Gold E and Silver e return to their squares after exactly p own turns, p = 3..16 (rings of p squares, or p + 1 squares with one two-step turn), so every position recurs after exactly p own turns of its creator; two laps, third entry attempted; several rotations of the root, 0..3 irreversible prefix turns, with and without padding pieces";
+
+// ---------------------------------------------------------------------------------------------------------------
+// Drag-back games: a piece of one side (rabbit, cat or dog) walks up an edge file and the opponent's elephant drags it
+// back, restoring its own square each time, until two positions of the walker (a2 and a3) have each ended a turn twice;
+// the walker's side then burns three steps so that, on the last step of the turn, the pass, the step back AND the
+// walker's own forward step are all withheld by the repetition rules (for a rabbit: no action is left at all, the
+// side on move has lost).  Repetitions that need the OPPONENT's cooperation to recur - one-turn exploration, the
+// fix-point games and the rings of E8/E10 (where every piece returns by itself) do not produce them.
+// ---------------------------------------------------------------------------------------------------------------
+
+fn transform_text(a: &str, mirror: bool, swap: bool) -> String {
+    if a == "p" {
+        return a.to_string();
+    }
+    let b = a.as_bytes();
+    let mut f = b[0];
+    let mut r = b[1];
+    let mut d = b[2];
+    if mirror {
+        f = b'a' + (b'h' - f);
+        d = match d {
+            b'e' => b'w',
+            b'w' => b'e',
+            x => x,
+        };
+    }
+    if swap {
+        r = b'1' + (b'8' - r);
+        d = match d {
+            b'n' => b's',
+            b's' => b'n',
+            x => x,
+        };
+    }
+    String::from_utf8(vec![f, r, d]).unwrap()
+}
+
+fn split_turns(actions: &[Action]) -> Vec<Vec<Action>> {
+    let mut turns = vec![];
+    let mut cur: Vec<Action> = vec![];
+    for a in actions {
+        cur.push(*a);
+        if matches!(a, Action::Pass) || cur.len() == 4 {
+            turns.push(std::mem::take(&mut cur));
+        }
+    }
+    if !cur.is_empty() {
+        turns.push(cur);
+    }
+    turns
+}
+
+pub fn dragback_scripts(thorough: bool) -> Vec<Script> {
+    let lap_a = "d4w p a3e p c4w b3s b4s b3n b2w a2e b2e c2e b4w a4e b4e c4e d2w c2w b2w p";
+    let lap_b = "d4w p a2e p c4w b4e c4e p b2w a2e b2w a2n";
+    let lap_b_open = "d4w p a2e p c4w b4e c4e p";
+    // after the final three steps one more action is asked for (the pass): it must be withheld, and asking for it makes
+    // the runner evaluate every oracle on the state where all three candidates are withheld
+    let fin = "b2w a2e b2w p";
+    let games: Vec<(String, &str)> = vec![
+        (format!("{} {} {} {} {}", lap_a, lap_b, lap_a, lap_b_open, fin), "two laps, then three burnt steps: pass, step back and forward step all withheld"),
+        (format!("{} {} {} {} b2w p", lap_a, lap_b, lap_a, lap_b_open), "two laps, one step, then a pass into the third occurrence of the a2 position"),
+        (format!("{} {} {}", lap_a, lap_b_open, fin), "one lap (nothing seen twice yet)"),
+        (format!("{} {} {} {} b2w a2n p", lap_a, lap_b, lap_a, lap_b_open), "two laps, two steps, then a pass into the third occurrence of the a3 position"),
+    ];
+    let kinds: Vec<u8> = if thorough { vec![0, 1, 2, 3, 4] } else { vec![0, 1, 2] };
+    let mut out = vec![];
+    for (gi, (text, what)) in games.iter().enumerate() {
+        for &kind in kinds.iter() {
+            for mirror in [false, true] {
+                for swap in [false, true] {
+                    for mn in if thorough { vec![5usize, 996, 65_520] } else { vec![[5usize, 996, 65_520][(gi + kind as usize) % 3]] } {
+                        // base: gold walker a3, silver e d4, silver r h8, silver to move
+                        let mut board = [rm::EMPTY; 64];
+                        let place = |name: &str| -> usize {
+                            let t = transform_text(&format!("{}n", name), mirror, swap);
+                            crate::e2::sq(&t[0..2])
+                        };
+                        board[place("a3")] = rm::cell(!swap, kind);
+                        board[place("d4")] = rm::cell(swap, 5);
+                        board[place("h8")] = rm::cell(swap, 0);
+                        if kind != 0 {
+                            // keep the walker's side from being eliminated: a rabbit of its own far away, blocked by nothing
+                            board[place("h1")] = rm::cell(!swap, 0);
+                        }
+                        let acts: Vec<Action> = text.split_whitespace().map(|a| transform_text(a, mirror, swap).parse::<Action>().expect("script action parses")).collect();
+                        out.push(Script { board, gold: swap, move_number: mn, turns: split_turns(&acts), config: serde_json::json!({"game": what, "walker_strength": kind, "mirrored_files": mirror, "colours_swapped_ranks_flipped": swap, "starting_move_number": mn}) });
+                    }
+                }
+            }
+        }
+    }
+    out
+}
+
+pub const DRAGBACK_NAME: &str = "E10 drag-back games: a rabbit / cat / dog walks a2-a3 on an edge file and the opponent's elephant drags it back to b2 and returns to d4, so that positions recur only with the opponent's cooperation; after two laps the walker's side burns steps until pass, step back and forward step are all third repetitions (rabbit: no action left - loss); 4 games x kinds x file mirror x colour swap";
+
+// ---------------------------------------------------------------------------------------------------------------
+// Collision games (C05-C07): the repetition rules must compare POSITIONS.  An implementation that remembers or compares
+// only part of the engine's 64-bit position hash behaves identically on every structural scenario; it differs only on
+// two different positions whose hashes agree on the compared bits.  The engine's own hash is public
+// (`transposition_hash`), so such pairs are searched for here, exhaustively over a stated set of arrangements, for three
+// 32-bit windows of the value (bits 0..32, 16..48, 32..64): every arrangement of Gold E M H D on the 30 non-trap squares
+// of ranks 2-5 (657,720 arrangements; about 50 colliding pairs per window are expected).  For each pair (P, C) found a
+// game is played in which P starts a turn twice and Gold then walks to C, ending a turn there with the same Silver
+// placement: a position never seen before, whose turn-ending action must be offered.
+// ---------------------------------------------------------------------------------------------------------------
+
+fn engine_hash(b: &rm::Board, gold: bool) -> u64 {
+    state_from_board(b, gold, 2).transposition_hash()
+}
+
+fn route(board: &rm::Board, from: usize, to: usize) -> Option<Vec<usize>> {
+    // shortest path over empty non-trap squares (BFS); returns the squares after `from`, ending with `to`
+    let mut prev = [usize::MAX; 64];
+    let mut q = std::collections::VecDeque::new();
+    prev[from] = from;
+    q.push_back(from);
+    while let Some(x) = q.pop_front() {
+        if x == to {
+            let mut p = vec![];
+            let mut y = to;
+            while y != from {
+                p.push(y);
+                y = prev[y];
+            }
+            p.reverse();
+            return Some(p);
+        }
+        for d in 0..4 {
+            if let Some(y) = rm::nb(x, d) {
+                if prev[y] == usize::MAX && board[y] == rm::EMPTY && !rm::TRAPS.contains(&y) {
+                    prev[y] = x;
+                    q.push_back(y);
+                }
+            }
+        }
+    }
+    None
+}
+
+pub fn collision_scripts(thorough: bool) -> (Vec<Script>, u64, u64) {
+    let region: Vec<usize> = (0..64).filter(|&i| (3..=6).contains(&(i / 8)) && !rm::TRAPS.contains(&i)).collect();
+    let kinds: [u8; 4] = [5, 4, 3, 2];
+    let mut fixed = [rm::EMPTY; 64];
+    fixed[crate::e2::sq("a1")] = rm::cell(true, 0);
+    fixed[crate::e2::sq("a8")] = rm::cell(false, 0);
+    fixed[crate::e2::sq("h8")] = rm::cell(false, 1);
+    // per-(kind, square) hash features taken from the engine itself (one-piece differences against the fixed board)
+    let h0 = engine_hash(&fixed, false);
+    let mut feat = vec![[0u64; 64]; 4];
+    for (k, &st) in kinds.iter().enumerate() {
+        for &s in region.iter() {
+            let mut b = fixed;
+            b[s] = rm::cell(true, st);
+            feat[k][s] = engine_hash(&b, false) ^ h0;
+        }
+    }
+    let windows: [(u32, &str); 3] = [(0, "bits 0..32"), (16, "bits 16..48"), (32, "bits 32..64")];
+    let mut maps: Vec<FxMap<u32, [u8; 4]>> = (0..3).map(|_| FxMap::default()).collect();
+    let mut pairs: Vec<Vec<([u8; 4], [u8; 4])>> = vec![vec![]; 3];
+    let mut arrangements = 0u64;
+    for &a in region.iter() {
+        for &b in region.iter() {
+            if b == a {
+                continue;
+            }
+            for &c in region.iter() {
+                if c == a || c == b {
+                    continue;
+                }
+                for &d in region.iter() {
+                    if d == a || d == b || d == c {
+                        continue;
+                    }
+                    arrangements += 1;
+                    let h = feat[0][a] ^ feat[1][b] ^ feat[2][c] ^ feat[3][d];
+                    let arr = [a as u8, b as u8, c as u8, d as u8];
+                    for (wi, (shift, _)) in windows.iter().enumerate() {
+                        let key = (h >> shift) as u32;
+                        if let Some(prev) = maps[wi].get(&key) {
+                            pairs[wi].push((*prev, arr));
+                        } else {
+                            maps[wi].insert(key, arr);
+                        }
+                    }
+                }
+            }
+        }
+    }
+    drop(maps);
+    let place = |arr: &[u8; 4]| -> rm::Board {
+        let mut b = fixed;
+        for k in 0..4 {
+            b[arr[k] as usize] = rm::cell(true, kinds[k]);
+        }
+        b
+    };
+    let mut out = vec![];
+    let mut found = 0u64;
+    let per_window = if thorough { 12 } else { 4 };
+    let perms: Vec<[usize; 4]> = {
+        let mut v = vec![];
+        for a in 0..4 {
+            for b in 0..4 {
+                for c in 0..4 {
+                    for d in 0..4 {
+                        if a != b && a != c && a != d && b != c && b != d && c != d {
+                            v.push([a, b, c, d]);
+                        }
+                    }
+                }
+            }
+        }
+        v
+    };
+    for (wi, (shift, wname)) in windows.iter().enumerate() {
+        let mut made = 0;
+        for (p, c) in pairs[wi].iter() {
+            let (bp, bc) = (place(p), place(c));
+            // the pair must collide under the engine's real hash of the full positions (the feature table is only a guide)
+            let x = engine_hash(&bp, false) ^ engine_hash(&bc, false);
+            if x == 0 || (x >> shift) as u32 != 0 {
+                continue;
+            }
+            found += 1;
+            if made >= per_window {
+                continue;
+            }
+            // route P -> C piece by piece, in some order of the pieces
+            let mut steps: Option<Vec<Action>> = None;
+            'perm: for perm in perms.iter() {
+                let mut b = bp;
+                let mut acts = vec![];
+                for &k in perm.iter() {
+                    let (from, to) = (p[k] as usize, c[k] as usize);
+                    if from == to {
+                        continue;
+                    }
+                    let path = match route(&b, from, to) {
+                        Some(x) => x,
+                        None => continue 'perm,
+                    };
+                    let mut at = from;
+                    for &nx in path.iter() {
+                        acts.push(action_of(at, dir_between(at, nx)));
+                        b[nx] = b[at];
+                        b[at] = rm::EMPTY;
+                        at = nx;
+                    }
+                }
+                steps = Some(acts);
+                break;
+            }
+            let steps = match steps {
+                Some(s) if s.len() >= 2 => s,
+                _ => continue,
+            };
+            // a quiet out-and-back step of the elephant for the second occurrence of P
+            let e_sq = p[0] as usize;
+            let out_back = (0..4).find_map(|d| rm::nb(e_sq, d).filter(|&y| bp[y] == rm::EMPTY && !rm::TRAPS.contains(&y) && (3..=6).contains(&(y / 8))).map(|y| (action_of(e_sq, d), action_of(y, (d + 2) % 4))));
+            let (step_out, step_back) = match out_back {
+                Some(x) => x,
+                None => continue,
+            };
+            let (h8, h7) = (crate::e2::sq("h8"), crate::e2::sq("h7"));
+            let cat_down = vec![action_of(h8, 2), Action::Pass];
+            let cat_up = vec![action_of(h7, 0), Action::Pass];
+            for end_with_fourth_step in [false, true] {
+                let n = steps.len();
+                // an even number k of gold turns (the cat is back on h8 after every second one), each with 1..=4 steps
+                let mut k = (n + 3) / 4;
+                if k % 2 == 1 {
+                    k += 1;
+                }
+                if n < k {
+                    continue;
+                }
+                let last = if end_with_fourth_step { 4 } else { ((n - (k - 1)).min(3)).max(1) };
+                if n < last + (k - 1) || n - last > 4 * (k - 1) {
+                    continue;
+                }
+                // distribute n - last steps over the first k - 1 turns
+                let mut sizes = vec![1usize; k - 1];
+                let mut rest = n - last - (k - 1);
+                for s in sizes.iter_mut() {
+                    let add = rest.min(3);
+                    *s += add;
+                    rest -= add;
+                }
+                if rest != 0 {
+                    continue;
+                }
+                sizes.push(last);
+                let mut turns = vec![cat_down.clone(), vec![step_out, Action::Pass], cat_up.clone(), vec![step_back, Action::Pass]];
+                let mut at = 0;
+                for (ti, &sz) in sizes.iter().enumerate() {
+                    turns.push(if ti % 2 == 0 { cat_down.clone() } else { cat_up.clone() });
+                    let mut t: Vec<Action> = steps[at..at + sz].to_vec();
+                    at += sz;
+                    if sz < 4 {
+                        t.push(Action::Pass);
+                    }
+                    turns.push(t);
+                }
+                out.push(Script { board: bp, gold: false, move_number: 2, turns, config: serde_json::json!({"window": wname, "P": rm::diagram(&bp, false, 2), "C": rm::diagram(&bc, false, 2), "gold_steps_from_P_to_C": n, "last_turn_ends_with": if end_with_fourth_step { "a fourth step" } else { "a pass" }}) });
+            }
+            made += 1;
+        }
+    }
+    (out, arrangements, found)
+}
+
+pub const COLLISION_NAME: &str = "E10 collision games: pairs of different positions whose engine hashes agree on a 32-bit window (bits 0..32, 16..48, 32..64), found by complete enumeration of the 657,720 arrangements of Gold E M H D on the 30 non-trap squares of ranks 2-5; P starts a turn twice, Gold then walks to C and ends a turn there (by a pass and by a fourth step): never seen before, must be offered";
